@@ -101,6 +101,7 @@ class Builder:
         self.vars = {}
         self.subs = {}
         self.journal = None
+        self.local_vars = {}
         for name, ty in prog.get("vars", {}).items():
             self.vars[name] = self.mkvar(ty)
         self.scopes = [self.vars]
@@ -152,7 +153,10 @@ class Builder:
                 scope[pn] = a
             for ln_ in sd.get("locals", []):
                 lty = sd.get("local_types", {}).get(ln_, "u")
+                if ln_ in sd.get("local_slots", {}):
+                    lty = [lty, sd["local_slots"][ln_]]
                 scope[ln_] = builder.mkvar(lty)
+                builder.local_vars.setdefault((name, ln_), []).append(scope[ln_])
             builder.scopes.append(scope)
             try:
                 inits = [scope[l].store(pt.Int(0) if sd.get("local_types", {}).get(l, "u") == "u" else pt.Bytes(""))
@@ -283,6 +287,18 @@ class Builder:
 
     def b_Pop(self, t):
         return pt.Pop(self.b(t[1]))
+
+    def b_Comment(self, t):
+        return pt.Comment(t[1], self.b(t[2]))
+
+    def b_Pragma(self, t):
+        return pt.Pragma(self.b(t[1]), compiler_version=">=0.1.0")
+
+    def b_Nonce(self, t):
+        return pt.Nonce(t[1], t[2], self.b(t[3]))
+
+    def b_AssertC(self, t):
+        return pt.Assert(*[self.b(c) for c in t[2:]], comment=t[1])
 
     def b_Assert(self, t):
         return pt.Assert(*[self.b(c) for c in t[1:]])
